@@ -175,7 +175,7 @@ func c01(c *core.Ctx) {
 			if !ok || !ci.Common().IsInvoke() || (ci.Common().Method.Name() != "Do" && ci.Common().Method.Name() != "Send") || len(ci.Common().Args) == 0 {
 				return
 			}
-			if cst, ok := ci.Common().Args[0].(*ssa.Const); ok && cst.Value != nil && cst.Value.Kind() == constant.String {
+			if cst, ok := rawArgs(ci)[0].(*ssa.Const); ok && cst.Value != nil && cst.Value.Kind() == constant.String {
 				cmd := strings.ToLower(constant.StringVal(cst.Value))
 				switch cmd {
 				case "lpush", "linsert", "lpushx", "rpushx", "lmove", "rpoplpush":
@@ -207,7 +207,7 @@ func c01(c *core.Ctx) {
 			arg := ssax.Args(cs.Instr)[2]
 			call, isCall := arg.(*ssa.Call)
 			key := fmt.Sprintf("enqueue|%s#%d", fname(cs.Fn), nEnq)
-			okCopy := isCall && call.Call.StaticCallee() != nil && call.Call.StaticCallee().Name() == "Copy" && ssax.TypeName(call.Call.Args[0].Type()) == "gmqtt.Message"
+			okCopy := isCall && call.Call.StaticCallee() != nil && call.Call.StaticCallee().Name() == "Copy" && ssax.TypeName(rawArgs(call)[0].Type()) == "gmqtt.Message"
 			c.Check(okCopy, "C01.R3", key+"|copy", ipos(c, cs.Instr), "enqueues a Message.Copy()", "a message object is enqueued without Copy(): the QoS clamp, flag changes and subscription ids applied for one subscriber leak into the copies of the others")
 			if okCopy {
 				c.Check(call.Block() == cs.Instr.Block(), "C01.R3", key+"|fresh", ipos(c, cs.Instr), "the copy is made at the enqueue", "the copy handed to the queue is made outside the enqueueing block (shared between several enqueues)")
@@ -294,7 +294,7 @@ func c01(c *core.Ctx) {
 		// ---- R7 subscription ids
 		nApp := 0
 		for _, cs := range ssax.Calls(am, false, ssax.ByName("builtin:append")) {
-			if !ssax.AnyIn(ssax.Backward(cs.Instr.Common().Args[0]), ssax.LoadOfField("gmqtt.Message.SubscriptionIdentifier")) {
+			if !ssax.AnyIn(ssax.Backward(rawArgs(cs.Instr)[0]), ssax.LoadOfField("gmqtt.Message.SubscriptionIdentifier")) {
 				continue
 			}
 			nApp++
@@ -309,7 +309,7 @@ func c01(c *core.Ctx) {
 			c.Check(okNZ, "C01.R7", fmt.Sprintf("addMsgToQueueLocked|sub-id-nonzero#%d", nApp), ipos(c, cs.Instr), "only non-zero subscription ids are attached", "subscription identifier 0 (= none) is attached to the message")
 			// appended ids come from the ids parameter
 			src := false
-			for _, a := range cs.Instr.Common().Args[1:] {
+			for _, a := range rawArgs(cs.Instr)[1:] {
 				if ssax.AnyIn(ssax.Backward(a), func(v ssa.Value) bool { return v == ssa.Value(paramOf(am, 5)) }) {
 					src = true
 				}
@@ -451,7 +451,7 @@ func c01(c *core.Ctx) {
 					return false
 				}
 				b, isB := call.Call.Value.(*ssa.Builtin)
-				return isB && b.Name() == "append" && ssax.AnyIn(ssax.Backward(call.Call.Args[0]), ssax.LoadOfField("struct.subIDs"))
+				return isB && b.Name() == "append" && ssax.AnyIn(ssax.Backward(rawArgs(call)[0]), ssax.LoadOfField("struct.subIDs"))
 			}
 			_, skip := ssax.PathQuery{Fn: onlyonce, To: ssax.IsReturn, Avoid: isIDAppend, Feasible: r}.Find()
 			c.Check(!skip, "C01.R4", "onlyonce|ids-collected", fpos(c, onlyonce), "every further matching subscription adds its id", "a further matching subscription of the same client can be processed without adding its subscription identifier")
@@ -529,7 +529,7 @@ func memQueueNoWalkAfterUnlink(c *core.Ctx, rule string) {
 				if n != "(*container/list.Element).Next" && n != "(*container/list.Element).Prev" {
 					return false
 				}
-				return call.Call.Args[0] == el || ssax.SameExpr(call.Call.Args[0], el)
+				return rawArgs(call)[0] == el || ssax.SameExpr(rawArgs(call)[0], el)
 			}, Avoid: func(in ssa.Instruction) bool {
 				// the cursor field being re-assigned ends the hazard
 				st, ok := in.(*ssa.Store)
